@@ -616,7 +616,7 @@ func exprOr(e ast.Expr) string {
 // ---------------------------------------------------------------- R4 own files only
 
 func c11Files(p *Prog, r *Report) {
-	r.Rule("C11.R4", "a run writes only its own files: every file-creating call in run-reachable code goes through the session's result-file opener, and its path is one of the per-run output paths (which contain the unique plot id) or a configuration-generation site that ends the process", 6)
+	r.Rule("C11.R4", "a run writes only its own files: every file-creating call in run-reachable code goes through the session's result-file opener, and its path is one of the per-run output paths (which contain the unique plot id) or a configuration-generation site that ends the process; result files opened by other routines (management log, fertiliser recommendation) use a path field built from the unique plot id", 8)
 	// direct file creation outside the opener
 	s := p.SSA()
 	reach := s.reachable(s.runFn())
@@ -723,8 +723,71 @@ func c11Files(p *Prog, r *Report) {
 		for _, f := range []string{"pnam", "cnam", "vnam"} {
 			r.Ob("unique:"+f, p.Pos(nf.Decl.Pos()), uses[f], fmt.Sprintf("output path %s is built from the unique plot id: %v", f, uses[f]))
 		}
+		// result files opened outside the run closure (management log, fertiliser recommendation): the path is a
+		// field of the per-run path record that is built from the unique plot id, directly or through one local
+		for _, key := range sortedFuncKeys(p) {
+			fo := p.Funcs[key]
+			if fo.Pkg != p.Hermes || fo.Obj == nil || key == "hermes.HermesSession.Run" {
+				continue
+			}
+			if strings.HasPrefix(key, "hermes.HermesSession.") {
+				continue // the opener and its wrappers: their path is a parameter, judged at their callers
+			}
+			oinfo := fo.Pkg.TypesInfo
+			ast.Inspect(fo.Decl.Body, func(n ast.Node) bool {
+				call, ok := n.(*ast.CallExpr)
+				if !ok || len(call.Args) == 0 {
+					return true
+				}
+				f := callee(oinfo, call)
+				if f == nil || f.Name() != "OpenResultFile" {
+					return true
+				}
+				arg := call.Args[0]
+				field := ""
+				how := ""
+				if id, ok := arg.(*ast.Ident); ok {
+					// single definition: local := X.field
+					obj := oinfo.Uses[id]
+					nd := 0
+					ast.Inspect(fo.Decl.Body, func(m ast.Node) bool {
+						if as, ok := m.(*ast.AssignStmt); ok {
+							for k, l := range as.Lhs {
+								if lid, ok := l.(*ast.Ident); ok && (oinfo.Defs[lid] == obj || oinfo.Uses[lid] == obj) {
+									nd++
+									if k < len(as.Rhs) {
+										arg = as.Rhs[k]
+									}
+								}
+							}
+						}
+						return true
+					})
+					if nd != 1 {
+						how = fmt.Sprintf("path variable %s has %d definitions", id.Name, nd)
+						arg = nil
+					}
+				}
+				if se, ok := arg.(*ast.SelectorExpr); ok {
+					if nm, _ := namedStruct(oinfo.TypeOf(se.X)); nm == "HFilePath" {
+						field = se.Sel.Name
+					}
+				}
+				okp := field != "" && uses[field]
+				if how == "" {
+					if field == "" {
+						how = "the path is not a field of the per-run path record: " + types.ExprString(call.Args[0])
+					} else {
+						how = fmt.Sprintf("path field %s is built from the unique plot id: %v", field, uses[field])
+					}
+				}
+				r.Ob("path:"+shortKey(key)+":OpenResultFile", p.Pos(call.Pos()), okp, how+" — a file name that is not unique per batch line is truncated and overwritten by other lines of the session")
+				return true
+			})
+		}
 	}
 }
+
 
 // bodyWritesField: the loop body (or a function it calls) writes the field.
 func bodyWritesField(p *Prog, fi *FuncInfo, body ast.Node, ref FieldRef) bool {
